@@ -74,6 +74,24 @@ UNITS = {
         ],
         "contracts": ["contracts/request.vc", "contracts/cors.vc"],
     },
+    "header_list": {
+        "preludes": ["shims/core.rs", "shims/env.rs", "shims/time.rs"],
+        "specs": ["contracts/spec/hv.rs", "contracts/spec/cors.rs", "contracts/spec/headers.rs"],
+        "sources": [
+            SYMBOL_SRC,
+            ("src/range/mod.rs", ["struct:Range", "consts:Range"]),
+            ("src/request/mod.rs", ["struct:Request", "struct:Method", "const:METHOD"]),
+            ("src/entry_point/mod.rs", ["struct:Config", "consts:Config"]),
+            ("src/cors/mod.rs", ["struct:Cors", "consts:Cors", "fn:Cors::get_vary_header_value:assume", "fn:Cors::get_headers:assume"]),
+            ("src/client_hint/mod.rs", ["struct:ClientHint", "consts:ClientHint", "fn:ClientHint::get_client_hint_list",
+                                        "fn:ClientHint::get_accept_client_hints_header", "fn:ClientHint::get_critical_client_hints_header",
+                                        "fn:ClientHint::get_vary_header_value"]),
+            ("src/header/mod.rs", ["struct:Header", "consts:Header", "fn:Header::get_x_content_type_options_header",
+                                   "fn:Header::get_accept_ranges_header", "fn:Header::get_x_frame_options_header",
+                                   "fn:Header::get_date_iso_8601_header", "fn:Header::get_no_cache_header", "fn:Header::get_header_list"]),
+        ],
+        "contracts": ["contracts/cors.vc", "contracts/header.vc"],
+    },
 }
 for k, v in UNITS.items():
     v["name"] = k
